@@ -146,6 +146,10 @@ func runC17(c *core.Ctx, res *core.Result) {
 						if !isClosedErr(err) {
 							res.Violate("second_finish_accepted", fmt.Sprintf("Commit on a finished transaction returned %v instead of the closed error (calls: %v)", err, calls), feat)
 						}
+					} else if kv.IsEngineBusy(err) {
+						// the engine gave up the commit (log in rotation): a failed transaction, finished, without effect
+						res.Count("commits_refused_by_engine", 1)
+						finished = true
 					} else if err != nil {
 						res.Violate("tx_error", "Commit: "+err.Error(), feat)
 					} else {
